@@ -440,11 +440,13 @@ def DoneS (F0 : List (String × RFile H)) (sdone : List (Step H)) : String → P
 
 /-- The loop over the later steps. -/
 theorem later_steps (hashOf : List β → H) (stored : String → Bool) (es : List (Entry β)) (wf : WFArchive es) (EXT : List String)
-    (lg : List (LBackup β)) (F0 : List (String × RFile H)) (rest : List (Step H))
+    (lg : List (LBackup β)) (group : List (Backup H β))
+    (hG : ∀ (j : Nat) (lb : LBackup β), lg[j]? = some lb → group[j]? = some (render hashOf lb))
+    (F0 : List (String × RFile H)) (rest : List (Step H))
     (hsteps : ∀ s ∈ rest, ∃ lb, lg[s.backup]? = some lb ∧ LStep hashOf stored es EXT lb s.files)
     (hnodup : (F0.flatMap (fun kv => kv.2.paths.dropLast) ++ rest.flatMap (fun s => s.files.flatMap (·.2.paths))).Nodup) :
     ∀ (todo sdone : List (Step H)) (st : RSt β), rest = sdone ++ todo → SInv stored es EXT (DoneS F0 sdone) st →
-      ∃ st', runSteps hashOf (lg.map (render hashOf)) todo false st = some st' ∧ SInv stored es EXT (DoneS F0 rest) st' := by
+      ∃ st', runSteps hashOf group todo false st = some st' ∧ SInv stored es EXT (DoneS F0 rest) st' := by
   intro todo
   induction todo with
   | nil =>
@@ -456,8 +458,7 @@ theorem later_steps (hashOf : List β → H) (stored : String → Bool) (es : Li
     intro sdone st hr inv
     have hsin : s ∈ rest := by rw [hr]; simp
     obtain ⟨lb, hlb, ls⟩ := hsteps s hsin
-    have hgrp : (lg.map (render hashOf))[s.backup]? = some (render hashOf lb) := by
-      rw [List.getElem?_map, hlb]; rfl
+    have hgrp : group[s.backup]? = some (render hashOf lb) := hG _ _ hlb
     have hd := List.nodup_append.mp hnodup
     have hD0 : ∀ kv ∈ s.files, ∀ q ∈ kv.2.paths, ¬ DoneS F0 sdone q := by
       intro kv hkv q hq
